@@ -168,6 +168,8 @@ def export_all(path):
             return {k: js(v) for k, v in t.items()}
         if isinstance(t, list):
             return [js(x) for x in t]
+        if callable(t):
+            return 'derived'                 # a parameter maker (python function): not for the concrete side
         return t
     out = {}
     for q, c in C.items():
